@@ -782,6 +782,7 @@ GEN_SRC = {n: gen_src(n) for n in ("SrcKmpLps", "SrcShiftAndMasks", "SrcHorspool
 
 # genpm: search loops of the exact matchers (C08) and distance functions (C09)
 GEN_SRC.update({n: gen_src(n) for n in ("SrcShiftAndNext", "SrcKmpNext", "SrcHorspoolNext", "SrcBndmNext")})
+GEN_SRC.update({n: gen_src(n) for n in ("SrcHamming",)})
 
 
 # ------------------------------------------------------------------------------------------ theorem modules built here
@@ -838,6 +839,8 @@ EXTRACTORS = {
 
 # genpm: `Matches::next` of the exact matchers; Thm/C08.lean imports RbV.Thm.GenSrc*Next and restates the theorems
 EXTRACTORS["C08"] = EXTRACTORS["C08"] + [GEN_SRC[n] for n in ("SrcShiftAndNext", "SrcKmpNext", "SrcHorspoolNext", "SrcBndmNext")]
+# genpm: C09 — Thm/C09.lean imports RbV.Thm.GenSrcHamming (…) and restates the theorems
+EXTRACTORS["C09"] = EXTRACTORS.get("C09", []) + [GEN_SRC[n] for n in ("SrcHamming",)]
 
 
 def main():
